@@ -195,7 +195,17 @@ func (s *Sim) yield(site string) {
 
 func (s *Sim) nowNs() int64 { return int64(time.Since(s.start)) }
 
+// raceKinds: the only records engine R keeps. They are all written on
+// paths the library already serialises (inside Transport.Write, or on the
+// scheduler goroutine), so that the simulator's own lock adds no
+// happens-before edge between goroutines the library leaves unordered.
+var raceKinds = map[string]bool{"tx": true, "txbad": true, "rx": true, "judge": true, "connstat": true, "teardown": true,
+	"skipped": true, "cut": true, "horizon": true, "subtable": true, "stats": true, "pending": true}
+
 func (s *Sim) log(r Rec) {
+	if s.race && !raceKinds[r.Kind] {
+		return
+	}
 	s.mu.Lock()
 	r.Seq = s.curSeq
 	r.T = s.nowNs()
@@ -210,6 +220,9 @@ func (s *Sim) fire(kind string) {
 }
 
 func (s *Sim) probe(name string) {
+	if s.race {
+		return
+	}
 	s.mu.Lock()
 	s.probes[name]++
 	s.mu.Unlock()
@@ -281,6 +294,24 @@ func runScenario(t *testing.T, sc *Scenario, race bool) *Result {
 				}
 			}
 		}()
+		if race {
+			// a race report fails the bubble's T and FailNow()s its parent: give it a
+			// parent of its own so that the worker survives and can attribute it
+			t.Run("r", func(t *testing.T) {
+				defer func() {
+					if r := recover(); r != nil {
+						msg := fmt.Sprint(r)
+						if !strings.Contains(msg, "blocked goroutines remain") && !s.bubbleDone {
+							res.HarnessErr = "panic in bubble: " + msg
+						}
+					}
+				}()
+				synctest.Test(t, func(t *testing.T) {
+					s.runRoot(res)
+				})
+			})
+			return
+		}
 		synctest.Test(t, func(t *testing.T) {
 			s.runRoot(res)
 		})
@@ -317,6 +348,9 @@ func (s *Sim) runRoot(res *Result) {
 	for i := range sc.Ops {
 		i := i
 		s.opState = append(s.opState, &opState{})
+		if sc.Ops[i].OnDial > 0 {
+			continue // released by the dialer
+		}
 		s.at(us(sc.Ops[i].AtUs)+resid(), "op", func() { s.releaseOp(i) })
 	}
 	for i := range sc.Faults {
@@ -381,6 +415,20 @@ func (s *Sim) runRoot(res *Result) {
 
 	s.extraSetup()
 
+	if s.race {
+		s.runRaceLoop(&ended)
+		s.log(Rec{Kind: "judge"})
+		s.judgeSnapshot()
+		s.teardown()
+		time.Sleep(time.Millisecond)
+		res.Trace = s.snapshotTrace()
+		res.Steps = s.steps
+		res.Events = s.events
+		res.FakeNs = s.nowNs()
+		res.Hash = TraceHash(res.Trace)
+		s.bubbleDone = true
+		return
+	}
 	// scheduler loop
 	for !ended {
 		synctest.Wait()
@@ -479,4 +527,45 @@ func TraceHash(tr []Rec) uint64 {
 		i = j
 	}
 	return h.Sum64()
+}
+
+// runRaceLoop (engine R): timed scenario events are applied at their fake
+// time, everything else runs freely: actors of one instant start together,
+// the broker reacts inline, nothing waits for quiescence.
+func (s *Sim) runRaceLoop(ended *bool) {
+	for !*ended {
+		s.mu.Lock()
+		if s.hp.Len() == 0 {
+			s.mu.Unlock()
+			return
+		}
+		ev := s.hp[0]
+		now := s.nowNs()
+		if ev.at > now {
+			s.mu.Unlock()
+			tm := time.NewTimer(time.Duration(ev.at - now))
+			select {
+			case <-tm.C:
+			case <-s.wake:
+				tm.Stop()
+			}
+			continue
+		}
+		heap.Pop(&s.hp)
+		s.curSeq = ev.seq
+		s.mu.Unlock()
+		select {
+		case <-s.wake:
+		default:
+		}
+		s.events++
+		heartbeat.Add(1)
+		ev.fn()
+	}
+}
+
+func (s *Sim) snapshotTrace() []Rec {
+	s.mu.Lock()
+	defer s.mu.Unlock()
+	return append([]Rec{}, s.trace...)
 }
